@@ -79,6 +79,7 @@ func Harness_C07_DepositNeverLostNeverStalls() {
 	if len(fin) != 1 || len(wd) > 1 {
 		return
 	}
+	verifNote("finalize event", fin[0])
 	success := attrIs(fin[0], types.AttributeKeySuccess, "true")
 	if len(wd) == 1 {
 		verifReach("refunded")
